@@ -646,7 +646,7 @@ func TestGroth16Soundness(t *testing.T) {
 	rec.Assume("a single proof element replaced by an unrelated group element verifies only with negligible probability; re-randomisations that yield other valid proofs of the same statement are not among the operators")
 	rec.Assume("CommitmentPok of a proof for a commitment-free key is not considered a proof element (serialised but unused)")
 	g := genCase(curvesForTier())
-	rec.Check(t, "g16", ev.N(220, 12000), func(rt *rapid.T) {
+	rec.Check(t, "g16", ev.N(800, 12000), func(rt *rapid.T) {
 		c := g.Draw(rt, "case")
 		rec.Begin("g16", c)
 		rec.Report(rt, "g16", c, run(c, rec))
